@@ -859,6 +859,9 @@ def _compensated(st, fn):
 
 UNS = 'fim/user/network_service.py'
 MUTANTS = [
+    {'name': 'precheck-skips-element-without-id', 'file': 'fim/graph/abc_property_graph.py', 'rule': 'R10',
+     'find': "                raise PropertyGraphQueryException(graph_id=self.graph_id, node_id=None,\n                                                  msg=\"A sliver without node id cannot be added\")\n",
+     'replace': "                continue\n"},
     {'name': 'deep-writer-parent-not-probed', 'file': 'fim/graph/abc_property_graph.py', 'rule': 'R10',
      'find': "            # raises if the parent is not in the graph\n            self.get_node_properties(node_id=parent_node_id)\n", 'replace': "            pass\n"},
     {'name': 'deep-writer-ids-not-probed', 'file': 'fim/graph/abc_property_graph.py', 'rule': 'R10',
